@@ -115,6 +115,33 @@ def r2(ctx, tables):
                     res[arm[0]] = (c[0], fmt_short(c[1]), fmt_short(c[2]))
                 elif const_int_of(e) is not None:
                     res[arm[0]] = ("const", const_int_of(e), None)
+        if "Iterating" not in res or "Stalled" not in res:
+            # the bound picked in the match and compared once behind it: `let max = match progress { Stalled => num_results, Iterating => parallelism,
+            # Finished => return true }; num_waiting >= max`
+            for lhs, kind, payload, blk, _l in p.defs.get(0, ()):
+                if kind != "rv" or payload.k != "bin" or blk not in b.live_blocks():
+                    continue
+                c = comparison(p.rvalue(payload, blk))
+                if c and fmt_short(c[2]) == "self.num_waiting":
+                    c = mirror(c)
+                    bound_op = payload.ops[0]
+                else:
+                    bound_op = payload.ops[1] if len(payload.ops) > 1 else None
+                if not c or fmt_short(c[1]) != "self.num_waiting" or bound_op is None or bound_op.place is None:
+                    continue
+                work, seen_l = [bound_op.place.local], set()
+                while work:
+                    cur = work.pop()
+                    if cur in seen_l:
+                        continue
+                    seen_l.add(cur)
+                    for l2, k2, pl2, blk2, _ in p.defs.get(cur, ()):
+                        if k2 == "rv" and pl2.k == "use" and pl2.ops[0].place is not None and pl2.ops[0].place.is_local() and not pl2.ops[0].place.proj:
+                            work.append(pl2.ops[0].place.local)
+                            continue
+                        arm = [n for n, tb in arms.items() if blk2 in b.reachable(tb) and not any(blk2 in b.reachable(ob) for on, ob in arms.items() if on != n)]
+                        if k2 == "rv" and len(arm) == 1 and arm[0] not in res:
+                            res[arm[0]] = (c[0], "self.num_waiting", fmt_short(p.rvalue(pl2, blk2)))
         ok = res.get("Iterating") == (">=", "self.num_waiting", "self.config.parallelism") and res.get("Stalled") == (">=", "self.num_waiting", "self.config.num_results") \
             and res.get("Finished") == ("const", 1, None)
         rule.check(ok, "[%s] at_capacity: Iterating -> num_waiting >= parallelism, Stalled -> num_waiting >= num_results, Finished -> true" % which, "%s|at_capacity" % which,
